@@ -262,44 +262,49 @@ def accel12 (lsb msb : Byte) : Int := DS.sext12 (lsb.toNat + 256 * (msb.toNat % 
 def rangeFactor (r : Regs) : Int := 2 ^ ((r 0x1A &&& 0xC0#8) >>> 6).toNat
 
 /-- expected result strings of the data getters given the six data bytes and the device range -/
-def expectUnscaled (d : List Byte) : String :=
-  fmtInts [accel12 (d.getD 0 0) (d.getD 1 0), accel12 (d.getD 2 0) (d.getD 3 0), accel12 (d.getD 4 0) (d.getD 5 0)]
-def expectScaled (chip : Regs) (d : List Byte) : String :=
+def expectUnscaledI (d : List Byte) : List Int :=
+  [accel12 (d.getD 0 0) (d.getD 1 0), accel12 (d.getD 2 0) (d.getD 3 0), accel12 (d.getD 4 0) (d.getD 5 0)]
+def expectScaledI (chip : Regs) (d : List Byte) : List Int :=
   let k := rangeFactor chip
-  fmtInts [k * accel12 (d.getD 0 0) (d.getD 1 0), k * accel12 (d.getD 2 0) (d.getD 3 0),
-           k * accel12 (d.getD 4 0) (d.getD 5 0)]
+  [k * accel12 (d.getD 0 0) (d.getD 1 0), k * accel12 (d.getD 2 0) (d.getD 3 0),
+   k * accel12 (d.getD 4 0) (d.getD 5 0)]
+def expectUnscaled (d : List Byte) : String := fmtInts (expectUnscaledI d)
+def expectScaled (chip : Regs) (d : List Byte) : String := fmtInts (expectScaledI chip d)
 
 def bitN (b : Byte) (i : Nat) : Int := if b.toNat / 2 ^ i % 2 = 1 then 1 else 0
 
 /-- datasheet decoding of every getter: (register address, burst length, result) from the
     device's read-only registers `c`; 2-bit fields with reserved code 3 are left free (`none`) -/
-def getterSpec (c : Regs) : Op → Option (Nat × Nat × Option String)
-  | .getId => some (0x00, 1, some (fmtInts [(c 0).toNat]))
-  | .getCmdError => some (0x02, 1, some (fmtInts [bitN (c 2) 1]))
+def getterSpecI (c : Regs) : Op → Option (Nat × Nat × Option (List Int))
+  | .getId => some (0x00, 1, some [((c 0).toNat : Int)])
+  | .getCmdError => some (0x02, 1, some [bitN (c 2) 1])
   | .getStatus =>
       let b := c 3
       let pm := b.toNat / 2 % 4
-      some (0x03, 1, if pm = 3 then none else some (fmtInts [bitN b 7, bitN b 4, pm, bitN b 0]))
-  | .getSensorClock => some (0x0A, 3, some (fmtInts [(c 0x0A).toNat + 256 * (c 0x0B).toNat + 65536 * (c 0x0C).toNat]))
-  | .getResetStatus => some (0x0D, 1, some (fmtInts [bitN (c 0x0D) 0]))
+      some (0x03, 1, if pm = 3 then none else some [bitN b 7, bitN b 4, (pm : Int), bitN b 0])
+  | .getSensorClock => some (0x0A, 3, some [(((c 0x0A).toNat + 256 * (c 0x0B).toNat + 65536 * (c 0x0C).toNat : Nat) : Int)])
+  | .getResetStatus => some (0x0D, 1, some [bitN (c 0x0D) 0])
   | .getIntStatus0 =>
       let b := c 0x0E
-      some (0x0E, 1, some (fmtInts [bitN b 7, bitN b 6, bitN b 5, bitN b 4, bitN b 3, bitN b 2, bitN b 1, bitN b 0]))
+      some (0x0E, 1, some [bitN b 7, bitN b 6, bitN b 5, bitN b 4, bitN b 3, bitN b 2, bitN b 1, bitN b 0])
   | .getIntStatus1 =>
       let b := c 0x0F
       let st := b.toNat % 4
-      some (0x0F, 1, if st = 3 then none else some (fmtInts [bitN b 4, bitN b 3, bitN b 2, st]))
+      some (0x0F, 1, if st = 3 then none else some [bitN b 4, bitN b 3, bitN b 2, (st : Int)])
   | .getIntStatus2 =>
       let b := c 0x10
-      some (0x10, 1, some (fmtInts [bitN b 4, bitN b 2, bitN b 1, bitN b 0]))
-  | .getFifoLen => some (0x12, 2, some (fmtInts [((c 0x12).toNat + 256 * (c 0x13).toNat) % 2048]))
-  | .getStepCount => some (0x15, 3, some (fmtInts [(c 0x15).toNat + 256 * (c 0x16).toNat + 65536 * (c 0x17).toNat]))
+      some (0x10, 1, some [bitN b 4, bitN b 2, bitN b 1, bitN b 0])
+  | .getFifoLen => some (0x12, 2, some [((((c 0x12).toNat + 256 * (c 0x13).toNat) % 2048 : Nat) : Int)])
+  | .getStepCount => some (0x15, 3, some [(((c 0x15).toNat + 256 * (c 0x16).toNat + 65536 * (c 0x17).toNat : Nat) : Int)])
   | .getStepActivity =>
       let a := (c 0x18).toNat % 4
-      some (0x18, 1, if a = 3 then none else some (fmtInts [a]))
-  | .getRawTemp => some (0x11, 1, some (fmtInts [DS.sext8 (c 0x11).toNat]))
-  | .getTempCelsius => some (0x11, 1, some (fmtInts [DS.sext8 (c 0x11).toNat + 46]))   -- 2·(raw·0.5 + 23)
+      some (0x18, 1, if a = 3 then none else some [(a : Int)])
+  | .getRawTemp => some (0x11, 1, some [DS.sext8 (c 0x11).toNat])
+  | .getTempCelsius => some (0x11, 1, some [DS.sext8 (c 0x11).toNat + 46])   -- 2·(raw·0.5 + 23)
   | _ => none
+
+def getterSpec (c : Regs) (op : Op) : Option (Nat × Nat × Option String) :=
+  (getterSpecI c op).map (fun (a, n, e) => (a, n, e.map fmtInts))
 
 /-- C17 for a fault-free getter call -/
 def C17 (c : Regs) (op : Op) (accs : List Acc) (o : Outcome) : Prop :=
